@@ -516,6 +516,34 @@ impl<Ctx: OptCtx> TypeChecked<'_, Ctx> {
 }
 
 #[cfg(feature = "verif-hooks")]
+impl<Ctx: OptCtx> TypeChecked<'_, Ctx> {
+    /// Verification hook (C03): the variables whose only writes sit in
+    /// blocks that `Mir::eliminate_dead_code` removes, with the label of
+    /// the first such block (one lowering, compared before and after).
+    pub fn verif_c03_eliminated_definitions(
+        &self,
+    ) -> Vec<(String, Vec<(String, String)>)> {
+        let mut type_info = self.type_info.clone();
+        let mut label_store = LabelStore::default();
+        let before = mir::verif_lower_to_mir_without_dce(
+            &self.module_tree,
+            &self.runtime.rt,
+            &mut type_info,
+            &mut label_store,
+            &self.order,
+        );
+        let mut after = before.clone();
+        after.eliminate_dead_code();
+        crate::verif_hooks::c03::eliminated_definitions_of(
+            &before,
+            &after,
+            &type_info,
+            &label_store,
+        )
+    }
+}
+
+#[cfg(feature = "verif-hooks")]
 impl<Ctx: OptCtx> LoweredToMir<'_, Ctx> {
     /// Verification hook (C01): the CFG skeleton of this MIR.
     pub fn verif_c01_cfg(&self) -> Vec<crate::verif_hooks::c01::CfgItem> {
